@@ -111,10 +111,12 @@ Print Assumptions C20_legacy_unzip_escapes_refuted.
 
 (** * Round trip *)
 
-(** For every well-formed tree [t] (distinct paths of ordinary slash-free
-    names, no file where another path needs a directory), every filter, both
-    values of the recursive flag, every cleanly spelled source directory
-    (optionally with one trailing '/') and every rooted destination:
+(** For every well-formed tree [t] (distinct paths of ordinary names - not "",
+    "." or ".." -, no file where another path needs a directory), every filter,
+    both values of the recursive flag, every spelling of the source directory
+    other than "" and "/" ([valid_src]: "/a/b", "a/b/", "./a", "a/.", "a//b",
+    ".", "../x" ...; ZipFolder("/") fails because ensureDirName turns "/" into
+    "") and every rooted destination:
     ZipFolder succeeds, UnzipToFolder of its archive into the empty file system
     succeeds, and the result contains exactly
     - the selected regular files, relocated below the destination, with their
@@ -123,7 +125,7 @@ Print Assumptions C20_legacy_unzip_escapes_refuted.
       above it, and the directories between it and a selected file (second). *)
 Theorem C20_zip_roundtrip : forall (src : rpath) (filt : option (rpath -> bool)) (recursive : bool)
                                    (t : tree) (dest : rpath),
-  good_src (ensure_dir_name src) -> wf_tree t -> is_rooted dest = true ->
+  valid_src src -> wf_tree t -> is_rooted dest = true ->
   exists ar fs',
     zip_folder src filt recursive t = ZOk ar /\
     unzip dest ar [] = (fs', UOk) /\
@@ -142,14 +144,15 @@ Print Assumptions C20_zip_roundtrip.
     file, in walk order *)
 Theorem C20_zip_folder_spec : forall (src : rpath) (filt : option (rpath -> bool)) (recursive : bool)
                                      (t : tree),
-  good_src (ensure_dir_name src) -> wf_tree t ->
+  valid_src src -> wf_tree t ->
   zip_folder src filt recursive t =
   ZOk (map plain_entry (filter (selected (ensure_dir_name src) filt recursive) (walk_sort t))).
 Proof. exact zip_folder_spec. Qed.
 Print Assumptions C20_zip_folder_spec.
 
 (** non-vacuity: a tree with an empty-content file, a nested file, a name with
-    dots, zipped from "/s/" non-recursively with a filter, unzipped into "/p/dest" *)
+    dots, zipped from "./s/." (not cleanly spelled) with a filter, recursively
+    and not, unzipped into "/p/dest" *)
 Definition C20_s : seg := [115]%N.
 Definition C20_d : seg := [100]%N.
 Definition C20_f : seg := [102]%N.
@@ -157,14 +160,12 @@ Definition C20_dots : seg := [46; 46; 46]%N.
 Definition C20_tree : tree :=
   [([C20_f], 0%N); ([C20_d; C20_f], 5%N); ([C20_d; C20_dots; C20_x], 6%N); ([C20_a], 7%N)].
 Definition C20_filter : option (rpath -> bool) :=
-  Some (fun p => negb (path_eqb p [s_empty; C20_s; C20_a])).     (* everything but "/s/a" *)
+  Some (fun p => negb (path_eqb p [C20_s; C20_a])).     (* everything but "s/a" (cleaned path) *)
 
-Example C20_ex_good_src : good_src (ensure_dir_name [s_empty; C20_s; s_empty]).
-Proof.
-  exists [C20_s]. split; [discriminate|]. split.
-  - constructor; [reflexivity|constructor].
-  - left. reflexivity.
-Qed.
+Definition C20_src : rpath := [s_dot; C20_s; s_dot].              (* "./s/." *)
+
+Example C20_ex_valid_src : valid_src C20_src.
+Proof. reflexivity. Qed.
 
 Ltac C20_seg_simpl :=
   cbv [C20_tree C20_s C20_d C20_f C20_x C20_a C20_dots map fst snd In] in *.
@@ -174,7 +175,7 @@ Proof.
   split; [|split].
   - C20_seg_simpl. repeat constructor; cbn [In]; intuition discriminate.
   - intros f Hf. C20_seg_simpl.
-    repeat (destruct Hf as [Hf|Hf]; [subst f; cbn [fst]; split; [discriminate|]; split;
+    repeat (destruct Hf as [Hf|Hf]; [subst f; cbn [fst]; split; [discriminate|];
       repeat constructor; cbv; intuition discriminate|]).
     destruct Hf.
   - intros f g Hf Hg [q [Hq Hp]]. C20_seg_simpl.
@@ -184,7 +185,7 @@ Proof.
 Qed.
 
 Example C20_ex_roundtrip_recursive :
-  zip_folder [s_empty; C20_s; s_empty] C20_filter true C20_tree =
+  zip_folder C20_src C20_filter true C20_tree =
     ZOk [mkE [s_empty; C20_d; C20_dots; C20_x] false 6%N; mkE [s_empty; C20_d; C20_f] false 5%N;
          mkE [s_empty; C20_f] false 0%N] /\
   unzip [s_empty; C20_p; C20_dest]
@@ -198,31 +199,35 @@ Example C20_ex_roundtrip_recursive :
 Proof. vm_compute. split; reflexivity. Qed.
 
 Example C20_ex_roundtrip_nonrecursive :
-  zip_folder [s_empty; C20_s; s_empty] C20_filter false C20_tree = ZOk [mkE [s_empty; C20_f] false 0%N].
+  zip_folder C20_src C20_filter false C20_tree = ZOk [mkE [s_empty; C20_f] false 0%N].
 Proof. vm_compute. reflexivity. Qed.
 
 Example C20_ex_roundtrip_instance :
   exists ar fs',
-    zip_folder [s_empty; C20_s; s_empty] C20_filter false C20_tree = ZOk ar /\
+    zip_folder C20_src C20_filter false C20_tree = ZOk ar /\
     unzip [s_empty; C20_p; C20_dest] ar [] = (fs', UOk) /\
     (forall p c, fs_get fs' p = Some (File c) <->
        exists r, In (r, c) C20_tree /\
-                 selected (ensure_dir_name [s_empty; C20_s; s_empty]) C20_filter false (r, c) = true /\
+                 selected (ensure_dir_name C20_src) C20_filter false (r, c) = true /\
                  p = resolve [s_empty; C20_p; C20_dest] ++ r).
 Proof.
-  destruct (C20_zip_roundtrip [s_empty; C20_s; s_empty] C20_filter false C20_tree
-              [s_empty; C20_p; C20_dest] C20_ex_good_src C20_ex_wf_tree eq_refl)
+  destruct (C20_zip_roundtrip C20_src C20_filter false C20_tree
+              [s_empty; C20_p; C20_dest] C20_ex_valid_src C20_ex_wf_tree eq_refl)
     as [ar [fs' [H1 [H2 [H3 _]]]]].
   exists ar, fs'. repeat split; try assumption; apply H3.
 Qed.
 
-(** * Outside of the theorem: a source directory that is not cleanly spelled
+(** * Before commit de6fafe (defect D12): unclean spellings of srcDir lost files
 
-    ZipFolder("./s", ...) cuts entry names at the wrong byte ("file" becomes
-    "ile", "d/file" becomes "/file"): the model reproduces what the code does,
-    the round-trip theorem requires [good_src]. *)
-Theorem C20_zip_unclean_src_mangles_names :
+    legacy ZipFolder("./s") names "file" as "ile" and "d/file" as "/file",
+    archives nothing when not recursive, panics for "././s"; the repaired
+    ZipFolder (last conjunct) names them "/d/file" and "/file". *)
+Theorem C20_legacy_zip_unclean_src_mangles_names_refuted :
+  legacy_zip_folder [s_dot; b_s] None true [([b_file], 1%N); ([b_d; b_file], 2%N)] =
+  ZOk [mkE [s_empty; b_file] false 2%N; mkE [[105; 108; 101]%N] false 1%N] /\
+  legacy_zip_folder [s_dot; b_s] None false [([b_file], 1%N); ([b_d; b_file], 2%N)] = ZOk [] /\
+  legacy_zip_folder [s_dot; s_dot; b_s] None true [([b_d], 1%N)] = ZPanic /\
   zip_folder [s_dot; b_s] None true [([b_file], 1%N); ([b_d; b_file], 2%N)] =
-  ZOk [mkE [s_empty; b_file] false 2%N; mkE [[105; 108; 101]%N] false 1%N].
-Proof. exact zip_unclean_src_mangles_names. Qed.
-Print Assumptions C20_zip_unclean_src_mangles_names.
+  ZOk [mkE [s_empty; b_d; b_file] false 2%N; mkE [s_empty; b_file] false 1%N].
+Proof. exact legacy_zip_unclean_src_mangles_names. Qed.
+Print Assumptions C20_legacy_zip_unclean_src_mangles_names_refuted.
